@@ -3,6 +3,7 @@ from __future__ import annotations
 import argparse
 import importlib
 import json
+import os
 import sys
 import time
 import traceback
@@ -37,32 +38,18 @@ def main():
     focus = [f for f in a.focus.split(',') if f]
     try:
         for fn, h in mod.HARNESS.items():
-            n = 0
-            fails = []
-            seen = set()
-            budget = h.get('budget_s', {}).get(a.tier, 20 if a.tier == 'quick' else 120)
-            t1 = time.time()
-            for case in h['cases'](a.tier, a.seed):
-                n += 1
-                key = json.dumps(case, sort_keys=True, default=str)
-                if key in seen:
-                    continue
-                seen.add(key)
-                try:
-                    f = h['check'](case)
-                except Exception as ex:     # harness error: not a verdict on pydoctor
-                    out['error'] = f'harness error in {fn} on {case!r}: ' + traceback.format_exc()[-800:]
-                    break
-                if f is not None:
-                    for ff in (f if isinstance(f, list) else [f]):
-                        fails.append({'function': fn, 'case': case, **ff})
-                if time.time() - t1 > budget:
-                    break
+            # each harness function runs in a child process that the parent watches: code under test that does not come back
+            # (a regular expression backtracking for ever holds the interpreter, no alarm gets through) is stopped from outside
+            # and reported as what it is - the case that did not terminate
+            res = _run_watched(fn, h, a)
+            n, fails = res['n'], res['fails']
+            if res.get('error'):
+                out['error'] = res['error']
             out['functions'][fn] = n
             for extra_fn in h.get('covers', []):
                 out['functions'][extra_fn] = out['functions'].get(extra_fn, 0) + n
             out['evaluations'] += n
-            out['distinct'] += len(seen)
+            out['distinct'] += res['distinct']
             out['bounds'][fn] = h.get('bound', '')
             # report the smallest failing inputs first, at most 5 per function and per distinct 'observed' class
             fails.sort(key=lambda f: len(json.dumps(f['case'], default=str)))
@@ -76,11 +63,96 @@ def main():
                 classes[cls] = classes.get(cls, 0) + 1
                 kept.append(f)
             out['failures'].extend(kept[:40])
+            if out['error']:
+                break
     except Exception:
         out['error'] = traceback.format_exc()[-1500:]
     out['wall_s'] = round(time.time() - t0, 2)
     json.dump(out, open(a.out, 'w'), indent=1, default=str)
     return 0
+
+
+CASE_LIMIT_S = 240      # no single evaluation may hold the harness longer than this (the checks' own alarms are 60-120 s)
+
+
+def _child(fn, h, a, resfile, progfile):
+    n = 0
+    fails = []
+    seen = set()
+    error = None
+    budget = h.get('budget_s', {}).get(a.tier, 20 if a.tier == 'quick' else 120)
+    t1 = time.time()
+    pfd = os.open(progfile, os.O_WRONLY | os.O_CREAT, 0o600)
+
+    def flush():
+        tmp = resfile + '.tmp'
+        json.dump({'n': n, 'fails': fails, 'distinct': len(seen), 'error': error}, open(tmp, 'w'), default=str)
+        os.replace(tmp, resfile)
+    try:
+        for case in h['cases'](a.tier, a.seed):
+            n += 1
+            key = json.dumps(case, sort_keys=True, default=str)
+            if key in seen:
+                continue
+            seen.add(key)
+            data = json.dumps({'case': case, 'start': time.time()}, default=str).encode()
+            os.pwrite(pfd, data, 0)
+            os.ftruncate(pfd, len(data))
+            try:
+                f = h['check'](case)
+            except Exception:     # harness error: not a verdict on pydoctor
+                error = f'harness error in {fn} on {case!r}: ' + traceback.format_exc()[-800:]
+                break
+            if f is not None:
+                for ff in (f if isinstance(f, list) else [f]):
+                    fails.append({'function': fn, 'case': case, **ff})
+                flush()
+            if time.time() - t1 > budget:
+                break
+    except Exception:
+        error = traceback.format_exc()[-1500:]
+    flush()
+
+
+def _run_watched(fn, h, a):
+    import multiprocessing, tempfile
+    d = tempfile.mkdtemp(prefix='run.', dir='/var/tmp')
+    resfile, progfile = os.path.join(d, 'res.json'), os.path.join(d, 'prog.json')
+    ctx = multiprocessing.get_context('fork')
+    p = ctx.Process(target=_child, args=(fn, h, a, resfile, progfile))
+    p.start()
+    hung = None
+    try:
+        while True:
+            p.join(0.5)
+            if p.exitcode is not None:
+                break
+            try:
+                prog = json.load(open(progfile))
+            except Exception:     # noqa  (not written yet / being rewritten)
+                continue
+            if time.time() - prog['start'] > h.get('case_limit_s', CASE_LIMIT_S):
+                hung = prog
+                p.kill()
+                p.join(10)
+                break
+        res = {'n': 0, 'fails': [], 'distinct': 0, 'error': None}
+        if os.path.exists(resfile):
+            try:
+                res = json.load(open(resfile))
+            except Exception:     # noqa
+                pass
+        if hung is not None:
+            res['fails'].append({'function': fn, 'case': hung['case'], 'class': 'hang',
+                                 'observed': f'the evaluation did not come back within {h.get("case_limit_s", CASE_LIMIT_S)} s and could not be interrupted (the process was stopped from outside)',
+                                 'required': 'always terminates'})
+            res['n'] = max(res['n'], 1)
+        elif p.exitcode not in (0, None) and not os.path.exists(resfile):
+            res['error'] = f'harness process for {fn} ended with status {p.exitcode}'
+        return res
+    finally:
+        import shutil
+        shutil.rmtree(d, ignore_errors=True)
 
 
 if __name__ == '__main__':
